@@ -1,7 +1,8 @@
 /-
-Specification for C12.  The pipeline is abstract: a manifest type with `requirements`, an in-memory
-patching step, a writer/reader pair, and an analysis that depends on the requirements only
-(deterministic resolver and matcher).  `WriterCorrect` is C13's round-trip theorem, as a hypothesis.
+Specification for C12: set arithmetic of the report, substitution of reported updates, and the pipeline
+(writer / reader pair, resolver + matcher as one deterministic function `raw`, the remediation options'
+ExplicitVulns handling).  `WriterCorrect` is C13's round-trip theorem as a hypothesis; it is discharged for
+package.json in `Properties/C12.lean` (`C12_npm_writer_correct`).
 -/
 import Scalibr.Model.Pipeline
 namespace Scalibr.Pipeline
@@ -20,15 +21,34 @@ def applyUpdates (reqs : List (Key × Nat)) (us : List ReqUpdate) : List (Key ×
     | some u => (k, u.to)
     | none => (k, v)
 
-structure Pipe (M : Type) where
-  requirements : M → List (Key × Nat)
-  vulns : List (Key × Nat) → List Nat                   -- resolve + match, a function of the requirements
-  write : M → List ReqUpdate → M                        -- ReadWriter.Write then ReadWriter.Read
-  patched : M → List ReqUpdate → M                      -- the strategy's in-memory manifest
+/-- The pipeline around the decision logic.  `M` manifest as read, `F` file on disk, `R` requirement list,
+`U` requirement update.  `write` is `ReadWriter.Write` (its error returns are `none`), `read` is `ReadWriter.Read`
+on what was written, `subst` is the property's "with the updated versions substituted", and `raw` is resolve +
+match: the vulnerability ids found in the graph these requirements resolve to.  That `raw` is a FUNCTION of the
+requirements is the determinism assumption on deps.dev's resolver and on the matcher (both runs use the same
+clients); everything the remediation options add on top is modelled below, not assumed. -/
+structure Pipe (M F R U : Type) where
+  requirements : M → R
+  read : F → M
+  write : M → List U → Option F
+  subst : R → List U → R
+  raw : R → List Nat
 
-/-- C13: re-reading what was written gives the original requirements with the updates substituted -/
-def WriterCorrect {M : Type} (p : Pipe M) : Prop :=
-  ∀ m us, p.requirements (p.write m us) = applyUpdates (p.requirements m) us
+/-- `ResolveGraphVulns` on a manifest as given: with `ExplicitVulns = E ≠ []` every other vulnerability found in
+THIS graph is appended to `IgnoreVulns`, so only `E` survives; with `E = []` everything found survives.
+(Ignore lists, depth, severity and dev filters are functions of the vulnerability and fold into `raw`.) -/
+def analyseFresh {M F R U : Type} (p : Pipe M F R U) (E : List Nat) (r : R) : List Nat :=
+  (p.raw r).filter fun v => E.isEmpty || E.contains v
+
+/-- the analysis `patchVulns` makes of a patched manifest INSIDE a run that started from requirements `r0`: the
+ignore list still holds only what `ResolveGraphVulns` put there for the original graph -/
+def analyseInRun {M F R U : Type} (p : Pipe M F R U) (E : List Nat) (r0 r : R) : List Nat :=
+  (p.raw r).filter fun v => !(!E.isEmpty && (p.raw r0).contains v && !E.contains v)
+
+/-- C13 as a hypothesis: whenever `Write` succeeds on a well-formed manifest and update list, re-reading the file
+gives the original requirements with the updates substituted -/
+def WriterCorrect {M F R U : Type} (p : Pipe M F R U) (wf : M → List U → Prop) : Prop :=
+  ∀ m us f, wf m us → p.write m us = some f → p.requirements (p.read f) = p.subst (p.requirements m) us
 
 /-- two patches as `choosePatches` must keep them apart -/
 def compatible (p q : Patch) : Prop :=
